@@ -103,6 +103,56 @@ def _rows_chunk(args):
     return part
 
 
+def _limit_chunk(args):
+    """Rows that cross the 2^31-1 rate limit (stepped with a wider register): the statement's
+    last sentence - a move reported as within the limit exceeds it by at most |jerk| - is about
+    exactly these moves.  In-limit states of the same rows get the full bracket check."""
+    rows, max_ticks = args
+    part = core.Part()
+    ebb_calc = _lib()
+    for rate, accel, jerk in rows:
+        peak, first = -1, None
+        for k, rate_k, _a, _t in t3_states(rate, accel, jerk, 0, max_ticks, limit=1 << 34):
+            mag = abs(rate_k)
+            first = mag if first is None else first
+            peak = max(peak, mag)
+            part.count("states")
+            if peak <= RATE_MAX:
+                for clause, msg in check_state(rate, accel, jerk, k, first, mag, peak):
+                    part.violation(f"{clause}:{rate},{accel},{jerk},{k}", msg,
+                                   {"kind": "peak", "rate": rate, "accel": accel, "jerk": jerk,
+                                    "ticks": k})
+                continue
+            part.count("over_limit_states")
+            try:
+                got = ebb_calc.max_rate_t3(k, rate, accel, jerk)
+            except Exception as exc:        # pylint: disable=broad-except
+                got = None
+                part.violation(f"raise:{rate},{accel},{jerk},{k}",
+                               f"max_rate_t3(T={k} rate={rate} accel={accel} jerk={jerk}) raised "
+                               f"{exc!r}", {"kind": "limit", "rate": rate, "accel": accel,
+                                            "jerk": jerk, "ticks": k})
+            if got is not None and got <= RATE_MAX and peak - RATE_MAX > abs(jerk):
+                part.violation(f"limit:{rate},{accel},{jerk},{k}",
+                               f"max_rate_t3(T={k} rate={rate} accel={accel} jerk={jerk}) = {got} "
+                               f"reports the move as within the 2^31-1 limit, but the recurrence "
+                               f"reaches {peak}, over the limit by {peak - RATE_MAX} > |jerk| = "
+                               f"{abs(jerk)}", {"kind": "limit", "rate": rate, "accel": accel,
+                                                "jerk": jerk, "ticks": k})
+    return part
+
+
+def limit_rows(ctx):
+    rates = _pm([P31 - 1, P31 - 5, P31 - 1000000, P30 + 1, 2000000000, 2100000000])
+    accels = _pm([0, 1, 7, 1000, 123457, 1000001, 2000000, 3000000, P22])
+    jerks = _pm([0, 1, 50, 1000, 20000, 60000, 2000000])
+    if ctx.thorough:
+        rates |= _pm([P31 - 2, P31 - 123457, 1500000000])
+        accels |= _pm([2, 3, 101, 50353403])
+        jerks |= _pm([2, 3, 7, 333, 100001])
+    return sorted(set(itertools.product(sorted(rates), sorted(accels), sorted(jerks))))
+
+
 def run(ctx):
     rates, accels, jerks, max_ticks = alphabets(ctx)
     rows = sorted(set(itertools.product(rates, accels, jerks)))
@@ -110,8 +160,11 @@ def run(ctx):
     s_rates, s_accels, s_jerks, s_ticks = short_alphabets()
     rows2 = sorted(set(itertools.product(s_rates, s_accels, s_jerks)))
     part.merge(core.fan_out(ctx, _rows_chunk, [(c, s_ticks) for c in core.split(rows2, 64)]))
+    part.merge(core.fan_out(ctx, _limit_chunk,
+                            [(c, ctx.pick(200, 600)) for c in core.split(limit_rows(ctx), 64)]))
     cnt = part.counters
     coverage = {
+        "over_limit_states": cnt.get("over_limit_states", 0),
         "states": cnt.get("states", 0),
         "transitions": cnt.get("states", 0),
         "traces_validated_against_impl": cnt.get("states", 0),
@@ -119,7 +172,9 @@ def run(ctx):
         "distinct_nontrivial": cnt.get("interior_peak_states", 0),
         "rule": "T3 machine stepped from every (rate, accel, jerk) of two lattices (interior-"
                 "extremum lattice up to max_ticks, boundary lattice up to 24 ticks) inside the "
-                "domain; max_rate_t3 called at every state (T = tick index); non-trivial = states "
+                "domain; max_rate_t3 called at every state (T = tick index); rows crossing the "
+                "2^31-1 limit stepped with a wider register for the 'reported as within the limit' "
+                "clause; non-trivial = states "
                 "whose true peak lies strictly inside the move (greater than both end rates)",
         "samples": core.rotate(part.samples, ctx.seed, 4),
         "rows": cnt.get("rows", 0),
@@ -133,6 +188,13 @@ def run(ctx):
 
 def replay(case):
     rate, accel, jerk, ticks = case["rate"], case["accel"], case["jerk"], case["ticks"]
+    if case["kind"] == "limit":
+        sub = core.Part()
+        # re-walk the row up to the recorded tick; keep only what concerns that tick
+        for viol in _limit_chunk(([(rate, accel, jerk)], ticks)).violations:
+            if viol["case"]["ticks"] == ticks:
+                sub.violations.append(viol)
+        return [v["msg"] for v in sub.violations]
     peak, first, last = -1, None, None
     for k, rate_k, _a, _t in t3_states(rate, accel, jerk, 0, ticks):
         mag = abs(rate_k)
